@@ -2,6 +2,7 @@ package main
 
 import (
 	"fmt"
+	"hash/fnv"
 	"math"
 	"strconv"
 	"strings"
@@ -98,7 +99,17 @@ func (g *Gen) genData() {
 	kinds := []string{"int", "int64", "int8", "uint", "uint32", "float", "bool", "string", "bytes", "nil", "setbytes", "setstring", "counter"}
 	n := 3 + r.Intn(5)
 	for i := 0; i < n; i++ {
-		v := StaticVar{Name: fmt.Sprintf("s%d", i), Kind: kinds[r.Intn(len(kinds))], Ptr: r.Chance(70)}
+		// (some names contain the words the parser knows as constants: true, false, nil)
+		name := fmt.Sprintf("s%d", i)
+		switch i {
+		case 1:
+			name = "trueName1"
+		case 3:
+			name = "nilScore3"
+		case 5:
+			name = "falsePos5"
+		}
+		v := StaticVar{Name: name, Kind: kinds[r.Intn(len(kinds))], Ptr: r.Chance(70)}
 		switch v.Kind {
 		case "int", "int64":
 			v.I = ints[r.Intn(len(ints))]
@@ -561,14 +572,23 @@ func (g *Gen) genMod() AMod {
 			kv1, kv2 := arg(), arg()
 			kv1.KVName, kv2.KVName = "k1", "k2"
 			m.Args = append(m.Args, kv1, kv2)
+		} else if r.Chance(30) {
+			// a group of one pair, and arguments behind a group
+			kv1 := arg()
+			kv1.KVName = "k1"
+			m.Args = append(m.Args, kv1, arg())
+			if r.Bool() {
+				m.Args = append(m.Args, arg())
+			}
+			g.tag("mods:kv-group-then-args")
 		}
 		return m
 	case 5:
-		return AMod{Name: []string{"jsonEscape", "htmlEscape", "urlEncode", "attrEscape", "jsEscape", "cssEscape", "linkEscape", "jsonQuote"}[r.Intn(8)]}
+		return AMod{Name: []string{"jsonEscape", "htmlEscape", "urlEncode", "attrEscape", "jsEscape", "cssEscape", "linkEscape", "jsonQuote", "je", "he", "ue", "ae", "jse", "ce", "le", "jq"}[r.Intn(16)]}
 	case 6:
-		return AMod{Name: "ifThenElse", Args: []AArg{arg(), arg()}}
+		return AMod{Name: []string{"ifThenElse", "ifel"}[r.Intn(2)], Args: []AArg{arg(), arg()}}
 	case 7:
-		return AMod{Name: "ifThen", Args: []AArg{arg()}}
+		return AMod{Name: []string{"ifThen", "if"}[r.Intn(2)], Args: []AArg{arg()}}
 	default:
 		return AMod{Name: "default", Args: []AArg{lit()}}
 	}
@@ -744,13 +764,42 @@ func (g *Gen) allowed(k string) bool {
 func (g *Gen) genItems(depth int, n int) []*Ast {
 	var out []*Ast
 	for i := 0; i < n; i++ {
-		if it := g.genItem(depth); it.K == "seq" {
+		it := g.genItem(depth)
+		g.spell(it)
+		if it.K == "seq" {
 			out = append(out, it.Body...)
 		} else {
 			out = append(out, it)
 		}
 	}
 	return out
+}
+
+// spell gives every node that has none yet one of the accepted spellings of its construct: mostly the
+// common one, otherwise one or two of the rarer ones (":=" or "=", "k, v" or "k,v", "a, b" or "a,b",
+// ctx/context, counter/cntr, blanks around operators and inside the delimiters, ".(T)" or "as T").
+// The choice is a function of the node's own text, so the main random stream is left as it was.
+func (g *Gen) spell(a *Ast) {
+	walkAst([]*Ast{a}, func(n *Ast) {
+		if n.SpSet || n.K == "seq" {
+			return
+		}
+		n.SpSet = true
+		h := fnv.New64a()
+		func() {
+			defer func() { _ = recover() }()
+			h.Write([]byte(n.Print()))
+		}()
+		sr := NewRNG(h.Sum64())
+		if !sr.Chance(40) {
+			return
+		}
+		n.Sp = 1 << uint(sr.Intn(7))
+		if sr.Chance(35) {
+			n.Sp |= 1 << uint(sr.Intn(7))
+		}
+		g.tag("spelling:variant")
+	})
 }
 
 func (g *Gen) small() int { return 1 + g.r.Intn(3) }
@@ -1052,6 +1101,14 @@ func (g *Gen) genItem(depth int) *Ast {
 	case "include":
 		n := 1 + r.Intn(2)
 		a := &Ast{K: "include", IncKw: []string{"include", "."}[r.Intn(2)]}
+		if r.Chance(20) {
+			// a longer list whose first two or three names are not registered
+			a.Names = append(a.Names, "missing7", "missing8")
+			if r.Bool() {
+				a.Names = append(a.Names, "missing9")
+			}
+			g.tag("include:long-name-list")
+		}
 		for i := 0; i < n; i++ {
 			if r.Chance(25) {
 				a.Names = append(a.Names, fmt.Sprintf("missing%d", r.Intn(3)))
@@ -1333,7 +1390,7 @@ func (g *Gen) genCLoop(depth int) *Ast {
 		}
 	}
 	if r.Chance(45) {
-		a.Sep = []string{",", ";", "|", "-", ", ."}[r.Intn(5)]
+		a.Sep = []string{",", ";", "|", "-", ", .", "&", "<br>", `","`, `"`, "/ ?"}[r.Intn(10)]
 		a.SepKw = []string{"separator", "sep"}[r.Intn(2)]
 	}
 	g.scope = append(g.scope, scopeVar{Name: a.Var, Kind: "int", Idx: lo >= 0 && hi < int64(len(g.data.User.History))})
@@ -1437,7 +1494,7 @@ func (g *Gen) genRLoop(depth int) *Ast {
 		g.tag("rloop:key-reuses-counter-name")
 	}
 	if r.Chance(45) {
-		a.Sep = []string{",", ";", "|", "-", ", ."}[r.Intn(5)]
+		a.Sep = []string{",", ";", "|", "-", ", .", "&", "<br>", `","`, `"`, "/ ?"}[r.Intn(10)]
 		a.SepKw = []string{"separator", "sep"}[r.Intn(2)]
 	}
 	n := 0
